@@ -141,6 +141,23 @@ def one_dataset(obs, rng, conv, spec, workdir=None):
         one = obs.call('select_index', ems.select_index, nat)
         if not isinstance(one, Failed):
             check_selection(obs, model, one, kname, [n], None, 'select_index', 'select-index-values')
+    # ---------------------------------------------------------------- a variable added AFTER the first selections
+    # The dataset object is live: a variable assigned to it later is "a variable defined on the selected grid" as well.
+    if rng.random() < 0.4:
+        face = model.kinds[model.default_kind]
+        late = model.fresh_ids((face.size,))
+        import xarray
+        ds['late_variable'] = xarray.DataArray(late.reshape(face.shape), dims=face.dims)
+        obs.cls('variable-added-after-first-selection')
+        ns = [int(v) for v in rng.integers(0, face.size, size=3)]
+        token = model.kind_token(model.default_kind)
+        natives = [tuple(token if isinstance(c, str) else c for c in model.native(model.default_kind, n)) for n in ns]
+        sel = obs.call('select_indexes (after adding a variable)', ems.select_indexes, natives, index_dimension='idx')
+        if not isinstance(sel, Failed):
+            obs.expect('late_variable' in sel.variables and nan_equal(sel['late_variable'].values, late[ns]),
+                       'a variable added to the dataset after an earlier selection is selected like any other',
+                       lambda: {'present': 'late_variable' in sel.variables, 'want': late[ns]}, mech='stale-after-dataset-changed')
+        del ds['late_variable']
     # ---------------------------------------------------------------- point lists (default kind)
     polys = oracle_polygons(obs, model, epolys)
     if polys is None or not any(p is not None for p in polys):
